@@ -142,6 +142,22 @@ def run(ctx):
         if list(conds) in ([App("not", (App("is", (fm, Const(None))),))], [App("is not", (fm, Const(None)))], [fm]):
             pol_ok = True
     none_case = any(t == Const([]) for t in dep_alts)
+
+    def given(guards, param):
+        """True / False when the guards say the pattern parameter is / is not None-free, None when they say nothing"""
+        for c_, v_ in guards.items():
+            if c_ == App("is not", (param, Const(None))):
+                return bool(v_)
+            if c_ == App("is", (param, Const(None))):
+                return not bool(v_)
+            if c_ == param:
+                return bool(v_)
+        return None
+    for g_, t_ in cases(itC):
+        if isinstance(t_, App) and t_.op == "comp:list" and given(g_, depre) is not True:
+            pol_ok = False  # the pattern is applied on the branch where none was given
+        if t_ == Const([]) and given(g_, depre) is not False:
+            none_case = False
     R.check("C11-D1a selection", pol_ok and none_case, "dependencies: names fully matching the dependency pattern; none when no pattern is given",
             mod=fi.module, node=fi.node, function=fq, expected="[k for k in integrated if re.fullmatch(dependency_regex, k) is not None] / []",
             found=repr(itC)[:240])
@@ -154,6 +170,12 @@ def run(ctx):
         fm = App("call:re.fullmatch", (omit, k))
         if list(conds) in ([App("is", (fm, Const(None)))], [App("not", (fm,))]):
             pol2 = True
+    for g_, t_ in cases(itB):
+        filtered = isinstance(t_, App) and t_.op == "comp:list" and bool(regex_calls(t_.args[2]))
+        if filtered and given(g_, omit) is not True:
+            pol2 = False
+        if not filtered and given(g_, omit) is not False:
+            pol2 = False
     R.check("C11-D1a selection", pol2 and len(ext_alts) > len(ext_sel), "extracted: names not fully matching the omit pattern; all when no pattern is given",
             mod=fi.module, node=fi.node, function=fq, expected="integrated if omit is None else [k … if re.fullmatch(omit, k) is None]",
             found=repr(itB)[:240])
